@@ -106,6 +106,22 @@ def gen_program(seed, i):
         prog['routines'].append(
             {'id': nid, 'clock': ck, 'free': True, 'seed': None,
              'body': [['y', 8 / 1024], ['sig', c]]})
+    if fam == 2 and rng.random() < 0.5:
+        # a routine that is pending at exactly time t is paused and resumed at t
+        # by a routine that runs before it, while a third one is also pending at
+        # t: scheduling it again moves it behind the third one in both modes
+        ck = g.single_clock
+        nid = g.next_id
+        a = rng.choice([2 / 1024, 5 / 1024, 10 / 1024])
+        b = rng.choice([1 / 1024, 3 / 1024])
+        mk = lambda i, extra: {'id': i, 'clock': ck, 'free': True,
+                               'seed': rng.randrange(1 << 30),
+                               'body': [['y', a]] + extra + [['y', b], ['send', 0, i * 1000 + 1]]}
+        prog['routines'].append(mk(nid, [['pause', nid + 1], ['resume', nid + 1]]))
+        prog['routines'].append(mk(nid + 1, [['send', 0.2, (nid + 1) * 1000]]))
+        prog['routines'].append(mk(nid + 2, [['send', 0.2, (nid + 2) * 1000]]))
+        if rng.random() < 0.5:
+            prog['routines'].append(mk(nid + 3, [['stop', nid + 2]]))
     prog['family'] = ['multi-clock', 'single-clock-tempo-cond', 'single-clock-pause-resume'][fam]
     return prog
 
